@@ -38,7 +38,8 @@ var wantedFuncs = []string{
 	"PFromBody.Parsed", "PFromBody.Empty", "PFromBody.Pending",
 	"PFLine.Parsed", "PFLine.Empty", "PFLine.Pending",
 	"PSIPMsg.Parsed", "PSIPMsg.Err",
-	"PContacts.Empty", "PContacts.Parsed", "PPAIs.Empty", "PPAIs.Parsed",
+	"PContacts.Empty", "PContacts.Parsed", "PContacts.VNo", "PContacts.More", "PPAIs.Empty", "PPAIs.Parsed", "PPAIs.VNo", "PPAIs.More",
+	"URIParamsLst.PNo", "URIParamsLst.More", "URIHdrsLst.HNo", "URIHdrsLst.More",
 	"URIParamsLst.Empty", "URIHdrsLst.Empty", "Hdr.Missing",
 }
 
@@ -188,6 +189,19 @@ func (f *ftr) expr(e ast.Expr) string {
 			if _, isB := f.info.Uses[id].(*types.Builtin); isB {
 				if a, ok := x.Args[0].(*ast.Ident); ok && strings.HasPrefix(leanType(f.typeOf(a)), "(Array") {
 					return "(Int.ofNat v_" + a.Name + ".size)"
+				}
+				// the length of a slice FIELD of a struct receiver (any element type): a parameter `v_c_Vals_len`
+				if sel, ok := x.Args[0].(*ast.SelectorExpr); ok {
+					if id, ok := sel.X.(*ast.Ident); ok && id.Name == f.recv && f.strct != nil {
+						if _, isSl := f.typeOf(sel).Underlying().(*types.Slice); isSl {
+							key := sel.Sel.Name + "_len"
+							if !f.fields[key] {
+								f.fields[key] = true
+								f.fieldL = append(f.fieldL, "(v_"+id.Name+"_"+key+" : Nat)")
+							}
+							return "(Int.ofNat v_" + id.Name + "_" + key + ")"
+						}
+					}
 				}
 			}
 			bail("len of a non-parameter")
